@@ -516,6 +516,20 @@ def constructor_tables(cx: Cx, ob_id: str) -> dict[str, list[Entry]]:
             inline = index_method_entries(cx, init, ob_id)
         if inline.get(name):
             tables[name] = inline[name]
+    # ... or by running the class's own indexing step over every record: `for record in records: self._index(record)`
+    missing_ = [n for n in TABLES if n not in tables and n not in alias]
+    if missing_:
+        idx_fn = cx.model.functions.get(f"{CONV}._index")
+        me_ = ("param", self_name)
+        calls_ = [(e2.a, c2) for e2, c2 in s.walk() if e2.kind == "expr" and op(e2.a) == "call" and op(e2.a[1]) == "attr" and e2.a[1][1] == me_ and e2.a[1][2] == "_index" and c2.loops and e2.a[2][:1] == (c2.loops[-1].a,)]
+        if idx_fn is not None and calls_:
+            call_, cctx_ = calls_[0]
+            over_records = any(x == ("param", init.params[1].name) for x in subterms(cctx_.loops[-1].b)) if len(init.params) > 1 else False
+            if over_records and not [g for g in cctx_.guards if g.kind == "guard" and g.line >= cctx_.loops[-1].line]:
+                via = index_method_entries(cx, idx_fn, ob_id)
+                for n in missing_:
+                    if via.get(n):
+                        tables[n] = _for_this_call([Entry(n, e.key_fields, e.key_unknown, e.value, e.value_field, e.conditions, e.site, e.fn, e.line, e.record) for e in via[n]], idx_fn, call_)
     for name, src in alias.items():
         if src in tables:
             tables[name] = [Entry(name, e.key_fields, e.key_unknown, e.value, e.value_field, e.conditions, e.site, e.fn, e.line, e.record) for e in tables[src]]
